@@ -285,7 +285,7 @@ def giant_record(rng, s, j):
     n = rng.randint(290000, 320000)
     jd = j * (dt / 3600.0)
     t0 = (rng.randint(631152000, 1400000000) // dt) * dt
-    period = rng.randint(60, 90)
+    period = rng.randint(50, 70)          # at least 4,100 dry stretches: samples x run edges above 2**31 whatever the seed
     rain, level = [], [0.0]
     for i in range(n - 1):
         ph = i % period
